@@ -68,6 +68,22 @@ def mutual_clash(t1, t2, cfg):
     return any(seen)
 
 
+def ntp_vals(t2, d):
+    """mirror of DeltaVerifyHyp.ntp_valsb: no tuple is the parent (in t2) of a location the subtraction writes a
+    value change to (the reverse key of a values_changed entry is its new_path, else its path)"""
+    for p, ch in d.diff.get("values_changed", {}).items():
+        keys = py_path(DC.parse_pathc(ch["new_path"] if ch.get("new_path") else p))
+        if not keys:
+            continue
+        try:
+            parent = get_at(t2, keys[:-1])
+        except Exception:
+            continue
+        if isinstance(parent, tuple):
+            return False
+    return True
+
+
 def hyp_expr8(t1, t2, zip_, thr, conv_tbl, kn):
     """Coq expression (sx) of the observed guards of the C08 theorems on the bidirectional delta of the diff:
     indep_verified d (claimed by C08_indep_guard_of_diff when keys_nonneg t2), ops_ok 0 on every difflib opcode
@@ -75,12 +91,14 @@ def hyp_expr8(t1, t2, zip_, thr, conv_tbl, kn):
     ops = D.coq_ops_table(D.opcode_table(t1, t2))
     return ("(let r := run_diff hatom_deep (tbl_udiff %s) (tbl_ops %s) no_paths no_paths %s %s %s in "
             "let d := to_delta (tbl_conv %s) true false (tbl_ops %s) %s %s (fst r) (snd r) in "
-            "sx_c08hyp6 %s (ops_table_disjointb %s) (forallb sym_okb (fst r)) (keys_nonneg %s) (korderb %s %s) "
-            "(no_clashb (fst (diff hatom_deep (tbl_udiff %s) (tbl_ops %s) no_paths no_paths %s %s %s [] []))))") % (
+            "sx_c08hyp8 %s (ops_table_disjointb %s) (forallb sym_okb (fst r)) (keys_nonneg %s) (korderb %s %s) "
+            "(no_clashb (fst (diff hatom_deep (tbl_udiff %s) (tbl_ops %s) no_paths no_paths %s %s %s [] []))) "
+            "(ntp_valsb %s d) (ops_table_sorted2b %s))") % (
         D.coq_udiff_table(D.udiff_table(t1, t2)), ops, D.coq_cfg(zip_, thr, True), V.to_coq(t1), V.to_coq(t2),
         conv_tbl, ops, V.to_coq(t1), V.to_coq(t2),
         "(indep_verified d)" if kn else "true", ops, V.to_coq(t2), V.to_coq(t1), V.to_coq(t2),
-        D.coq_udiff_table(D.udiff_table(t1, t2)), ops, D.coq_cfg(zip_, thr, True), V.to_coq(t1), V.to_coq(t2))
+        D.coq_udiff_table(D.udiff_table(t1, t2)), ops, D.coq_cfg(zip_, thr, True), V.to_coq(t1), V.to_coq(t2),
+        V.to_coq(t2), ops)
 
 
 def holds8(t1, t2, cfg, always=False):
@@ -273,7 +291,7 @@ def one_pair(ctx, t1, t2, cases, corr=True, hyp_cases=None):
             cases.append((DC.model_expr(t1, t2, zip_, thr, True, False, t2, conv, rrem, radd, want="sub"),
                           [payload, [DC.canon_unordered(back), False]], dict(tag, op="sub")))
             # the refusal in the model (a function of bidirectional only), always_include_values varied independently
-            for aiv in ((False, True) if (ctx.thorough or rng.random() < 0.5) else ()):
+            for aiv in ((False, True) if (ctx.thorough or rng.random() < 0.2) else ()):
                 try:
                     dird = Delta(dd, always_include_values=aiv)
                     cases.append((DC.model_expr(t1, t2, zip_, thr, False, aiv, t2, conv, rem, add, want="sub"),
@@ -282,7 +300,7 @@ def one_pair(ctx, t1, t2, cases, corr=True, hyp_cases=None):
                 except Exception:
                     pass
             # --- operation sequences on ONE Delta object: the model's apply is a pure function of (delta, base) ---
-            if corrupt_cases and (not corr or rng.random() < (0.5 if ctx.thorough else 0.35)):
+            if corrupt_cases and (not corr or rng.random() < (0.5 if ctx.thorough else 0.3)):
                 cbase = corrupt_cases[0][0]
                 C, G = True, False     # corrupted / good base
                 seq = [("add", cbase, C), ("add", cbase, C), ("add", t1, G), ("sub", t2, G), ("add", cbase, C), ("add", cbase, C)]
@@ -317,7 +335,7 @@ def one_pair(ctx, t1, t2, cases, corr=True, hyp_cases=None):
                                      "a mismatched base was accepted by a reused Delta object (raise_errors=True)")
                             break
                         # correspondence: every step of the logging object against the pure model
-                        if not re_ and got[0] == "ok" and (k % 2 == 1) and DC.in_universe(base) and DC.in_universe(got[1]):
+                        if not re_ and got[0] == "ok" and (k % 2 == 1 if ctx.thorough else k in (1, 2, 7)) and DC.in_universe(base) and DC.in_universe(got[1]):
                             if op == "add":
                                 cv2 = DC.conv_table(pairs + [(type(x.t2), get_safe(base, x)) for x in dd.get("type_changes", []) if get_safe(base, x) is not DC._NF])
                                 cases.append((DC.model_expr(t1, t2, zip_, thr, True, False, base, cv2, rem, add),
@@ -343,8 +361,16 @@ def one_pair(ctx, t1, t2, cases, corr=True, hyp_cases=None):
                 ctx.count("hyp:no_clash_true" if nc else "hyp:no_clash_false")
                 ctx.count("hyp:all_data_guards_of_sub_inverts_default_partial" if (ko and nc)
                           else "hyp:outside_data_guards_of_sub_inverts_default_partial")
-                hyp_cases.append((hyp_expr8(t1, t2, zip_, thr, conv, kn), [True, True, True, kn, ko, nc],
-                                  dict(tag, hypotheses="indep_verified/ops_disjoint/sym_ok/keys_nonneg/korder/no_clash")))
+                nt = ntp_vals(t2, d)
+                kn1 = keys_nonneg(t1)
+                ctx.count("hyp:ntp_vals_true" if nt else "hyp:ntp_vals_false")
+                if not nc:
+                    ctx.count("hyp:clash_case_inside_guards_of_sub_inverts_default" if (ko and nt and kn1)
+                              else "hyp:clash_case_outside_guards_of_sub_inverts_default")
+                ctx.count("hyp:all_data_guards_of_sub_inverts_default" if (ko and (nc or (nt and kn1)))
+                          else "hyp:outside_data_guards_of_sub_inverts_default")
+                hyp_cases.append((hyp_expr8(t1, t2, zip_, thr, conv, kn), [True, True, True, kn, ko, nc, nt, True],
+                                  dict(tag, hypotheses="indep_verified/ops_disjoint/sym_ok/keys_nonneg/korder/no_clash/ntp_vals/ops_sorted2")))
             for base, res, n in corrupt_cases[:2]:
                 if not DC.in_universe(base) or not DC.in_universe(res):
                     continue
